@@ -18,7 +18,7 @@ PROPS = {
     "C06": {"rt": ["rt_tee", "rt_crash", "rt_archive", "rt_sigchld", "rt_sqlmodel", "rt_fs", "rt_versions"], "level": "proof", "assumes": [A_PY, A_SQL, A_LIB]},
     "C07": {"rt": ["rt_env", "rt_planner", "rt_versions", "rt_parsing", "rt_deps"], "level": "proof", "assumes": [A_PY, A_LIB]},
     "C08": {"rt": ["rt_versions", "rt_sqlmodel", "rt_env", "rt_planner", "rt_fs"], "level": "proof", "assumes": [A_PY, A_SQL, A_LIB]},
-    "C09": {"rt": ["rt_executor", "rt_sigchld", "rt_planner", "rt_deps"], "level": "proof", "assumes": [A_PY, A_OS, A_SIG, A_PLAN]},
+    "C09": {"rt": ["rt_executor", "rt_sigchld", "rt_wakeup", "rt_planner", "rt_deps"], "level": "proof", "assumes": [A_PY, A_OS, A_SIG, A_PLAN]},
     "C10": {"rt": ["rt_tee", "rt_parsing", "rt_env"], "level": "proof", "assumes": [A_PY, A_OS, A_LIB]},
     "C11": {"rt": ["rt_traverse", "rt_archive", "rt_sqlmodel", "rt_identifiers"], "level": "proof", "assumes": [A_PY, A_SQL, A_LIB]},
     "C12": {"rt": ["rt_archive", "rt_sqlmodel"], "level": "proof", "assumes": [A_PY, A_SQL, A_LIB]},
